@@ -1,0 +1,27 @@
+//go:build verif
+// +build verif
+
+// Contracts for package udp, read only by the verifier in /verif (build tag verif).
+// This file contains no code.
+
+package udp
+
+// Inbound datagram (C07: no panic for any bytes; C11: whole, unmerged, queued once).
+// The caller (stack.NIC.DeliverTransportPacket) has checked that the first view holds at
+// least the 8-byte UDP header. Either the datagram is dropped and the receive queue is
+// untouched, or exactly one new packet is appended at the tail: it carries all bytes after
+// the header (size - 8), the sender's address and source port as found in the packet, and
+// the buffer accounting grows by exactly that size.
+//@ func (*endpoint).HandlePacket props C07 C11
+//@   requires e != nil && r != nil && e.stack != nil && e.waiterQueue != nil
+//@   requires len(vv.views) >= 1 && len(vv.views[0]) >= header.UDPMinimumSize && vv.size == vsum(vv.views) && vv.size <= 1 << 40
+//@   requires 0 <= e.rcvBufSize && e.rcvBufSize <= 1 << 40
+//@   ensures (e.rcvList.tail == old(e.rcvList.tail) && e.rcvList.head == old(e.rcvList.head) && e.rcvBufSize == old(e.rcvBufSize))
+//@        || (old(e.rcvReady) && !old(e.rcvClosed) && old(e.rcvBufSize) < old(e.rcvBufSizeMax) && int(be16(old(vv.views[0]), 4)) <= old(vv.size)
+//@            && e.rcvList.tail != nil && fresh(e.rcvList.tail) && e.rcvList.tail.data.size == old(vv.size) - header.UDPMinimumSize
+//@            && e.rcvBufSize == old(e.rcvBufSize) + old(vv.size) - header.UDPMinimumSize
+//@            && e.rcvList.tail.senderAddress.Port == be16(old(vv.views[0]), 0) && e.rcvList.tail.senderAddress.Addr == id.RemoteAddress
+//@            && e.rcvList.tail.udpPacketEntry.prev == old(e.rcvList.tail) && e.rcvList.tail.udpPacketEntry.next == nil
+//@            && implies(old(e.rcvList.tail) == nil, e.rcvList.head == e.rcvList.tail)
+//@            && implies(old(e.rcvList.tail) != nil, e.rcvList.head == old(e.rcvList.head) && old(e.rcvList.tail).udpPacketEntry.next == e.rcvList.tail))
+//@   modifies e.rcvList.head, e.rcvList.tail, e.rcvBufSize, structfamily(udpPacket), structfamily(tcpip.StatCounter), elemfamily(buffer.View)
